@@ -111,6 +111,8 @@ def _matches(s, t, start, end, ba):
 def _positions(n, P):
     """positions named by a posspec, normalised to 0..n-1 (RefErr when one is out of range)"""
     k, v = P
+    if k == "r" and v[2] == 0:
+        raise RefErr("range step")
     ps = [v] if k == "i" else (list(v) if k == "l" else list(range(*v)))
     out = []
     for p in ps:
@@ -186,8 +188,6 @@ def ref_msb0(op, s, a):
         if op == "set":
             v, P = ("1" if int(a[0]) else "0"), _posspec(a[1])
             if P is None:
-                if n == 0:
-                    raise RefErr("empty")
                 return B(v * n)
             l = list(s)
             for q in _positions(n, P):
@@ -278,8 +278,6 @@ def ref_msb0(op, s, a):
             return (len(pts), B(out + s[last:]))
         if op == "insert":
             v, pos = unwire(a[0]), int(a[1])
-            if not v:
-                return B(s)
             if pos < 0:
                 pos += n
             if not 0 <= pos <= n:
@@ -287,8 +285,6 @@ def ref_msb0(op, s, a):
             return B(s[:pos] + v + s[pos:])
         if op == "overwrite":
             v, pos = unwire(a[0]), int(a[1])
-            if not v:
-                return B(s)
             if pos < 0:
                 pos += n
             if not 0 <= pos <= n:
@@ -317,7 +313,7 @@ def ref_msb0(op, s, a):
             total = 8 * sum(sizes)
             if not total:
                 return (0, B(s))
-            final = e if rep else st + total
+            final = e if rep else min(st + total, e)
             l, reps = s, 0
             for pe in range(st + total, final + 1, total):
                 bs = pe - total
@@ -417,8 +413,8 @@ def expected(op, s, a, lsb0):
             toks = [b for _k, b in _ptoks(a[0])]
             return "ok " + canon(B("".join(reversed(toks)) if lsb0 else "".join(toks)))
         if op == "setsliceint" and _opt(a[2]) in (None, 1, -1):
-            # `x[a:b] = n` writes n as a uint/int of the width of x[a:b]; that bit string is the operand
-            k, v = len(s[slice(_opt(a[0]), _opt(a[1]), None)]), int(a[3])
+            # `x[a:b:±1] = n` writes n as a uint/int as wide as the slice; that bit string is the operand
+            k, v = len(s[slice(_opt(a[0]), _opt(a[1]), _opt(a[2]))]), int(a[3])
             if k == 0 or (v >= 0 and v >= (1 << k)) or (v < 0 and v < -(1 << (k - 1))):
                 raise RefErr("value does not fit")
             return expected("setslice", s, [a[0], a[1], a[2], format(v % (1 << k), "0%db" % k)], lsb0)
@@ -839,8 +835,17 @@ def _count_aligned(line):
 
 
 def _set_range(line):
+    """a range that `set` writes as one slice: non-empty, first and last element valid non-negative indices"""
     op, s, a = _f(line)
-    return (op == "set" and a[1].startswith("r")) or (op == "setsliceint" and a[2] not in ("None", "1", "-1"))
+    n = len(s)
+    if op == "set" and a[1].startswith("r"):
+        x, y, c = _posspec(a[1])[1]
+        r = range(x, y, c) if c else range(0)
+    elif op == "setsliceint" and a[2] not in ("None", "1", "-1", "0") and a[3] in ("0", "1"):
+        r = range(*slice(_opt(a[0]), _opt(a[1]), int(a[2])).indices(n))
+    else:
+        return False
+    return len(r) > 0 and 0 <= r[0] < n and 0 <= r[-1] < n
 
 
 def _multi_chunk(line):
@@ -938,8 +943,7 @@ def gen_slices(rng, tier):
                 if keep < 1.0 and k not in (rl, 1) and rng.random() < 0.6:
                     continue
                 yield L("setslice", _mcls(rng), s, a, b, c, wire(_pat(k, 3)))
-            if rng.random() < (0.25 if n <= full else 0.5) and (c is None or c >= -1):
-                # (a negative extended step goes through range(*key.indices()) -> slice(): msb0's own business)
+            if rng.random() < (0.25 if n <= full else 0.5):
                 yield L("setsliceint", _mcls(rng), s, a, b, c, rng.choice([0, 1, 1, -1, 2, 5, -3, (1 << max(rl, 1)) - 1]))
         for i in range(-(n + 3), n + 4):
             for s in conts:
@@ -966,12 +970,9 @@ def gen_slices(rng, tier):
                 yield L("invert", _mcls(rng), s, P)
                 yield L("set", _mcls(rng), s, rng.choice([0, 1]), P)
                 yield L("allany", _acls(rng), s, rng.choice([0, 1]), P)
-            # ranges on which iterating the range and slicing with it mean the same positions
-            for a in range(0, n + 1):
-                for b in range(0, n + 1):
+            for a in range(-1, n + 2):
+                for b in range(-2, n + 2):
                     for c in (1, 2, 3, -1, -2):
-                        if c < 0 and a > n - 1:
-                            continue
                         if rng.random() < (0.5 if n <= full else 0.12):
                             yield L("set", _mcls(rng), s, rng.choice([0, 1]), f"r{a},{b},{c}")
                         if rng.random() < (0.2 if n <= full else 0.05):
@@ -1070,12 +1071,6 @@ def gen_bytes(rng, tier):
                 b = rng.choice([None, n, n - 8, -8, -1, rng.randint(0, n)])
                 fmt = rng.choice(["None", "0", "1", "2", "3", "1,1", "2,1", "1,2", "0,1", "1,0,2", "4", "-1"])
                 rep_ = rng.choice([1, 1, 0])
-                sa = 0 if a is None else (a + n if a < 0 else a)
-                sb = n if b is None else (b + n if b < 0 else b)
-                if not rep_ and fmt not in ("None", "0", "-1"):
-                    tot = 8 * sum(int(x) for x in fmt.split(","))
-                    if sa + tot > sb:
-                        continue                         # a single pattern that does not fit: C03's business
                 yield L("byteswap", _mcls(rng), s, fmt, a, b, rep_)
             for _ in range(20 if big else 8):
                 a, b = rng.choice([None, 0, 3, 8, -8, rng.randint(0, n)]), rng.choice([None, n, n - 3, -1, rng.randint(0, n)])
